@@ -310,7 +310,9 @@ func ruleTopicChannels(c *Check, rule string) {
 // R5 GETGLOBAL.
 func ruleGetGlobal(c *Check, rule string) {
 	name := "snapshot/storage.GetGlobal"
-	fn, paths := c.walkFn(rule, name, WalkConfig{})
+	fn, paths := c.walkFn(rule, name, WalkConfig{Inline: func(f *ssa.Function, d int) bool {
+		return d <= 2 && shortPkg(fnPkgPath(f)) == "snapshot/storage" && QualName(f) != "snapshot/storage.wait" && len(f.Blocks) < 10
+	}})
 	if paths == nil {
 		return
 	}
